@@ -47,6 +47,22 @@ CLAIMED = {
    text="ArgMax/ReduceMax/ReduceMin: symbolic axes (incl. out-of-range and repeated), keepdims 0/1/absent, no axes, all elements symbolic (IEEE floats with ties and infinities, integers): output shape, dtype and first-occurrence / max / min per slice, error for invalid axes. Softmax/LogSoftmax in exact real arithmetic (exp/log uninterpreted, exp>0): outputs equal exp(x-m)/sum resp. (x-m)-log(sum) along the requested axis only, slices sum to 1, and the same operator instance re-applied to an input of another rank; thorough tier adds IEEE float32 proofs that finite inputs of any magnitude give non-NaN results in range. gorgonia's Argmax/Max/Min/softmax kernels are line-by-line ports incl. their quirks.",
    note="Two known findings (ArgMax +Inf tie, softmax slice-maximum seed) listed in known_findings.json; NaN ordering in reductions outside; the IEEE overflow clause is thorough-tier only (about one minute of solver time per assertion)." + NOTE_COMMON,
    design="DESIGN.md section 4, C09"),
+ "C04": dict(
+   text="MatMul (numpy.matmul for 24+ rank/shape combinations incl. vector promotion and broadcast batch dims), Gemm (every transA/transB, symbolic alpha/beta, 9 shapes of C), LinearRegressor and Scaler in EXACT REAL arithmetic with every element and scalar a solver variable: the result must equal the algebraic definition as an identity over the reals (nonlinear real arithmetic), or be an error; float32 operands must be computed; the same operator instance is applied twice to the same tensors, which must stay unmodified.",
+   note="The identity is over the reals: the size of floating-point rounding is the standard dot-product bound and is cited, not checked. One known finding (batched path with 1x1 matrices refused)." + NOTE_COMMON,
+   design="DESIGN.md section 4, C04"),
+ "C05": dict(
+   text="Conv (1-D and 2-D, group 1) against direct convolution over the zero-padded input in exact real arithmetic with all inputs, weights and biases symbolic, for non-square geometries x strides x dilations x asymmetric pads x auto_pad modes x kernel_shape given/inferred x bias x batch/channel/kernel counts; refused configurations must be errors; each operator instance is applied a second time to other values.",
+   note="Two known findings (auto_pad=VALID pinned by the repo's own tests; kernels with a unit spatial extent refused). The fully symbolic geometry lemmas of DESIGN 4/C05 layer 1 are not part of the check." + NOTE_COMMON,
+   design="DESIGN.md section 4, C05"),
+ "C06": dict(
+   text="RNN, GRU and LSTM against the ONNX recurrences written as scalar loops (ONNX gate order, Wb/Rb halves, peepholes) in exact real arithmetic with X, W, R, B, P and the initial states symbolic and exp/tanh uninterpreted: outputs Y [seq,1,batch,hidden], Y_h, Y_c for every subset of optional inputs, supported and unsupported activations, linear_before_reset, input_forget honoured-or-refused; split consistency with the returned state tensors fed to the second call on the same instance; all inputs unmodified.",
+   note="Two known findings (hidden_size 1; batch 1 with input 1). Rounding and the accuracy of exp/tanh are outside." + NOTE_COMMON,
+   design="DESIGN.md section 4, C06"),
+ "C01": dict(
+   text="Model.Run on 250+ small graphs (1-3 nodes over an operator alphabet chosen to exercise every binding rule, multi-output RNN/GRU/LSTM nodes with arbitrary/permuted/omitted/empty output names, skipped optional inputs, initializers that are also graph inputs, dangling/late/unproduced names, unknown operators, Constants) with every tensor element symbolic, compared with an independent evaluator in the harness that binds results by position in its own environment: same error-ness, exactly the declared outputs, each term-equal to the composition.",
+   note="Graphs with more than 3 nodes and operators outside the alphabet are outside; protobuf decoding is not involved (the harness builds the decoded struct)." + NOTE_COMMON,
+   design="DESIGN.md section 4, C01"),
 }
 NA_REASON = "check not built yet (engine under construction in this session); will be claimed once its bounds run clean"
 checks = []
